@@ -427,26 +427,26 @@ pub fn bfs(ctx: &mut Ctx, n: usize, t: u64, depth: usize, tie: bool, dedup: bool
                             }
                         }
                         let fresh = !dedup || seen.insert(k);
-                        if fresh {
-                            if counted {
-                                ctx.out.states += 1;
-                                if x2.live().count() > 0 {
-                                    ctx.out.nontrivial += 1;
-                                }
+                        if fresh && counted {
+                            ctx.out.states += 1;
+                            if x2.live().count() > 0 {
+                                ctx.out.nontrivial += 1;
                             }
-                            // drain through the public API: latent corruption must surface
-                            if let Err(f) = x2.drain(tie) {
-                                if counted {
-                                    let detail = format!("(n={n}, t={t}ns) after {} ops: {}", h2.len(), f.text());
-                                    ctx.violation(class, || case_json(n, t, &h2, tie), detail);
-                                }
-                            } else {
-                                if counted && h2.len() == 4 {
-                                    ctx.sample(|| case_json(n, t, &h2, tie));
-                                }
-                                if d + 1 < depth {
-                                    next.push(h2);
-                                }
+                        }
+                        // drain through the public API after *every* history (not only the first
+                        // one reaching a canonical state): latent corruption must surface, also
+                        // in state the canonical key cannot see
+                        if let Err(f) = x2.drain(tie) {
+                            if counted {
+                                let detail = format!("(n={n}, t={t}ns) after {} ops: {}", h2.len(), f.text());
+                                ctx.violation(class, || case_json(n, t, &h2, tie), detail);
+                            }
+                        } else if fresh {
+                            if counted && h2.len() == 4 {
+                                ctx.sample(|| case_json(n, t, &h2, tie));
+                            }
+                            if d + 1 < depth {
+                                next.push(h2);
                             }
                         }
                     }
